@@ -150,6 +150,42 @@ def gen_mutants(data, c, rng, tier, shard, nshards):
                 yield ("random", k), bytes(b)
 
 
+def tail_variants(orig, rng, tier):
+    """Valid content files (CRC recomputed) derived from orig by changing one byte that does not matter for loading, chosen so
+    that the stored CRC ENDS with given bytes: a reader that pads a short read with a constant accepts exactly the truncations
+    that cut such bytes off."""
+    body = bytearray(orig[:-4])
+    n = len(body)
+    tails = [b"\xff", b"\x00", b"\x01"] + ([b"\xff\xff", b"\x00\x00"] if tier == "thorough" else [])
+    for tail in tails:
+        found = None
+        offs = list(range(max(12, n - 400), n))
+        rng.shuffle(offs)
+        budget = 4000 if len(tail) == 1 else 400000
+        for off in offs:
+            pre = cnt.crc32c(bytes(body[:off]))
+            old = body[off]
+            for v in range(256):
+                if v == old:
+                    continue
+                budget -= 1
+                suf = bytes([v]) + bytes(body[off + 1:])
+                crc = cnt.crc32c(suf, pre).to_bytes(4, "little")
+                if crc.endswith(tail):
+                    cand = bytes(body[:off]) + suf + crc
+                    try:
+                        c2 = cnt.decode(cand)
+                        if not cnt.check_map_invariants(c2):
+                            found = cand
+                            break
+                    except Exception:
+                        pass
+            if found or budget <= 0:
+                break
+        if found:
+            yield tail, found
+
+
 def run_mutants(case):
     seed, shape, shard, nshards, tier = case
     rng = random.Random("c09-%d-%d" % (seed, shape))
@@ -204,6 +240,39 @@ def run_mutants(case):
                     f.write(d)
             if _unmatched(res) >= 5:
                 break
+        if shard == 0 and _unmatched(res) < 5:
+            # truncations that remove only trailing CRC bytes of a given value (0xFF = EOF as a byte, 0x00, 0x01)
+            for tail, var in tail_variants(orig, random.Random("c09-tail-%d-%d" % (seed, shape)), tier):
+                for p in cps:
+                    with open(p, "wb") as f:
+                        f.write(var)
+                r0 = a.cmd("status", variant="asan", timeout=120)
+                if r0.rc != 0:
+                    res["counters"]["tail_variants_not_loadable"] = res["counters"].get("tail_variants_not_loadable", 0) + 1
+                else:
+                    res["counters"]["tail_variants"] = res["counters"].get("tail_variants", 0) + 1
+                    for cut in range(1, len(tail) + 1):
+                        mut = var[:-cut]
+                        for (cmd, args) in [("status", []), ("list", []), ("diff", []), ("check", ["-a"]), ("sync", []), ("scrub", []), ("fix", [])]:
+                            for p in cps:
+                                with open(p, "wb") as f:
+                                    f.write(mut)
+                            r = a.cmd(cmd, *args, variant="asan", timeout=120)
+                            nm += 1
+                            replay = {"case": list(case), "mutant": ["trunc-crc-tail", tail.hex(), cut], "cmd": [cmd] + args}
+                            label = "valid content file whose CRC ends with %s, last %d byte(s) cut off (shape %d, all copies) under %s" % (tail.hex(), cut, shape, cmd)
+                            for s_ in r.san:
+                                res["violations"].append(("sanitizer:" + A.san_key(s_), "%s\n%s" % (label, s_[:2500]), replay))
+                            if r.rc == 0:
+                                res["violations"].append(("damaged-content-accepted:trunc", "%s exited 0" % label, replay))
+                            now = [open(p, "rb").read() if os.path.exists(p) else None for p in cps]
+                            if now != [mut] * len(cps):
+                                res["violations"].append(("content-modified-by-rejected-load", label, replay))
+                            if a.parity_bytes() != parity0:
+                                res["violations"].append(("parity-modified-by-rejected-load", label, replay))
+                for p, d in zip(cps, others):
+                    with open(p, "wb") as f:
+                        f.write(d)
         res["counters"]["mutants"] = nm
         res["counters"]["content_bytes"] = len(orig) if shard == 0 else 0
         res["nontrivial"] = nm > 0
